@@ -6,15 +6,18 @@ ID = "C04"
 CLAIMED = True
 MODEL_GROUP = "browser"
 THEOREM_FILE = "Props/C04.v"
-LEVEL_TEXT = ("Coq theorems about the model of the cache + browser logic: a response that completes an instance of a "
-              "browsed type (live PTR, SRV, address) with a NEW record yields ServiceResolved in the same "
-              "handle_response, a new PTR with TTL > 1 yields ServiceFound first; the follow-up chain asks at +500 ms, "
-              "at most 3 times, (instance, ANY) while no SRV is cached and (host, A/AAAA) afterwards; the history-level "
-              "statement chk_C04 is REFUTED for the faithful model (witness in Props/C04.v) in the two classes that "
-              "stay as known findings (dotted instance label; record refreshed in its last second); the spec cache "
-              "chk_C04 judges against is proved to be the model's cache for all histories. Model tied to the Rust daemon by the K6 simulation (model trace = projected "
-              "implementation trace); the extracted viol_C04 runs on the implementation's events, questions and "
-              "requested wake-ups")
+LEVEL_TEXT = ("Coq theorems about the model of the cache + browser logic. History level (all histories in which time does "
+              "not run backwards): C04_followup_schedule_invariant - after every iteration every follow-up retransmission is "
+              "try 1..3 and due within the next 500 ms; C04_spec_cache_is_model_cache - the cache chk_C04 judges against is "
+              "the model's cache. Per response message, for every reachable state outside the executable classes "
+              "known_ptr_variant / known_srv_targets: C04_completing_response_resolves_partial - a message that leaves an "
+              "instance of a browsed type complete and cached a new/revived record of it yields exactly one "
+              "ServiceResolved for it in that handle_response; plus the step theorems (ServiceFound for a new PTR, "
+              "follow-up chain +500 ms x 3, (instance, ANY) then (host, A/AAAA), new round after the chain is over). "
+              "The universal statement chk_C04 = true is REFUTED for the faithful model in the three classes that stay "
+              "as known findings (one vm_compute witness each: dotted label, record refreshed in its last second, second "
+              "SRV target). Model tied to the Rust daemon by the K6 simulation (model trace = projected implementation "
+              "trace); the extracted viol_C04 runs on the implementation's events, questions and requested wake-ups")
 TECHNIQUE = ("machine-checked proof in Coq (component theorems, refutation witnesses by vm_compute) + model/implementation "
              "correspondence on the simulated daemon + history-level monitor")
 LEVELS = bc_levels = ("K6 sim: one real daemon thread in the simulated world; per iteration the channel events (canonical "
@@ -26,14 +29,13 @@ RULE = ("all partitions/orders/duplications of an instance's record set (PTR, SR
         "backslash, non-ASCII, dots (known finding), hosts whose case differs between SRV target and address owner "
         "(repaired: must resolve), instances under type and subtype PTR; timer-exact and late schedules; non-trivial = at least one event or follow-up question")
 TRUSTED = bc.TRUSTED_COMMON
-PARTIAL = ("History-level completeness (chk_C04 over all histories) is not a theorem: it is false of the faithful model "
-           "(2 known-finding classes, refutation witness proved; the witnesses of the classes repaired in round 2 - restart, "
-           "stale pending_resolves, host case - are examples/corpus cases that pass); outside those classes it is checked by the monitor on "
-           "the implementation and on the model for every generated history, and the component theorems cover the "
-           "resolution step and the follow-up chain. 'At least one address in the interface's subnet' is not used by "
-           "the code and not required by the checker. The third and second follow-up times are tied by model/"
-           "implementation equality and by the monitor's chained obligations (each try at +500 ms of the previous one, "
-           "right question, wake-up requested), the bound of 3 and the asked names.")
+PARTIAL = ("History-level completeness `wf_history h -> ~Known_C04 h -> chk_C04 (run_history h) = true` is NOT a theorem: "
+           "proved are its per-message core (C04_completing_response_resolves_partial, exactly one ServiceResolved) and the "
+           "follow-up schedule invariant over all histories; missing is an invariant relating the checker's bookkeeping "
+           "(found/up per channel, chained follow-up obligations, order of events inside an iteration) to the model state. "
+           "Outside the known classes the statement is checked by the monitor on model and implementation for every "
+           "generated history. 'At least one address in the interface's subnet' is not used by the code and not required. "
+           "Requested wake-ups are checked against the monitor's due times, the model does not compute timers.")
 
 project = bc.project_line
 model_input = bc.model_input_line
@@ -43,6 +45,7 @@ shrink = bc.shrink_hist
 KNOWN = {
     "labels:presentation": "C04-D20-dotted-label-followup",
     "complete:refresh-only": "C04-last-second-refresh-not-new",
+    "complete:srv-targets": "C04-second-srv-target",
 }
 
 
@@ -59,6 +62,7 @@ def generate(rng, tier):
         ("dotted", 20 * k, lambda r, i: bc.gen_special(r, i, "dotted")),
         ("case", 120 * k, lambda r, i: bc.gen_special(r, i, "case")),
         ("twotypes", 30 * k, lambda r, i: bc.gen_special(r, i, "two-types")),
+        ("srvtargets", 20 * k, lambda r, i: bc.gen_special(r, i, "srv-targets")),
         ("long", 3 * k, bc.gen_long),
     ])
 
